@@ -89,6 +89,7 @@ def one(cppcheckdata, path):
     out['xml_error'] = rep.xml_error
     if not rep.wellformed:
         out['xml_context'] = vdump.xml_error_context(data, rep.xml_error)
+        out['xml_culprit'] = vdump.xml_culprit(data, rep.xml_error)
     out['violations'] = [list(v) for v in rep.all_violations()]
     out['stats'] = rep.stats()
     # second monitor
